@@ -174,7 +174,7 @@ def guarded_bindings(rep: Report, prog: Program, resolver: Resolver) -> None:
         raise AnalysisError(f"only {n} registry bindings found (floor 4)")
 
 
-def late_naming(rep: Report, prog: Program, resolver: Resolver, ev: Evaluator) -> bool:
+def late_naming(rep: Report, prog: Program, resolver: Resolver, ev: Evaluator) -> Dict[str, bool]:
     """R19.3: a class whose constructor is the declaring API (called with name=/symbol= in
     shipped declarations) must register a name given for an already-interned instance."""
     decl_classes: Dict[str, int] = {}
@@ -201,12 +201,80 @@ def late_naming(rep: Report, prog: Program, resolver: Resolver, ev: Evaluator) -
         else:
             rep.inventory("R19.3i", {"class": cls, "early_return_ignores_names": not ok,
                                      "note": "declaring APIs are define/derive/alias, not the constructor"})
-    return handles.get("Prefix", False)
+    return handles
+
+
+def interned_construction(rep: Report, prog: Program, resolver: Resolver, summ: "Summary", handles: Dict[str, bool]) -> None:
+    """R19.7 / R19.8: __new__ interns the instance *before* __init__ validates anything, so a
+    rejected definition leaves whatever __init__ had done so far in the intern table.
+      R19.7  at every point where __init__ can raise, every attribute __init__ gives the object has
+             already been assigned (no half-built object stays interned);
+      R19.8  `_initialized = True` is not set before a point that can still raise, unless the
+             already-initialised arm registers the name itself (otherwise the rejected call leaves an
+             initialised anonymous object and the next valid declaration is a silent no-op)."""
+    for cls in ("Dimension", "Prefix", "Unit"):
+        new = prog.func(f"{cls}.__new__")
+        if not any("_known" in w.location for w in writes_in(prog, resolver, new.qual)):
+            continue  # not interned by __new__
+        fi = prog.func(f"{cls}.__init__")
+        cfg = CFG(fi.node)
+        dom = cfg.dominators()
+        stores: Dict[int, str] = {}
+        for st in ast.walk(fi.node):
+            tgts = st.targets if isinstance(st, ast.Assign) else ([st.target] if isinstance(st, (ast.AnnAssign, ast.AugAssign)) else [])
+            for t in tgts:
+                if isinstance(t, ast.Attribute) and isinstance(t.value, ast.Name) and t.value.id == "self":
+                    n = cfg.node_of(st)
+                    if n is not None:
+                        stores[n] = t.attr if n not in stores else stores[n] + "," + t.attr
+        required = {a for v in stores.values() for a in v.split(",")} - {"_initialized"}
+        rnodes: List[Tuple[int, ast.AST, str]] = []
+        for x in raise_sites(prog, fi.qual):
+            if x.kind in ("raise", "assert") and not handlers_around(fi, x.node):
+                n = cfg.node_of(x.node)
+                if n is not None:
+                    rnodes.append((n, x.node, fi.qual))
+        for cs in resolver.callsites(fi.qual):
+            n = cfg.node_of(cs.node)
+            if n is None or handlers_around(fi, cs.node):
+                continue
+            for t in cs.targets:
+                if summ.may_raise(t):
+                    rnodes.append((n, cs.node, t))
+                    break
+        if not rnodes:
+            rep.ok("R19.7", f"{cls}.__init__", note="nothing in __init__ can raise")
+            rep.ok("R19.8", f"{cls}.__init__", note="nothing in __init__ can raise")
+            continue
+        init_nodes = [n for n, v in stores.items() if "_initialized" in v.split(",")]
+        # the arm taken for an instance that an earlier, completed __init__ already built
+        built_arm = {id(x) for st in fi.node.body if isinstance(st, ast.If) and ast.unparse(st.test) in ("self._initialized", "self._initialized is True")
+                     for b in st.body for x in ast.walk(b)}
+        rnodes = [r for r in rnodes if id(r[1]) not in built_arm]
+        if not rnodes:
+            rep.ok("R19.7", f"{cls}.__init__", note="only the already-initialised arm can raise")
+            rep.ok("R19.8", f"{cls}.__init__", note="only the already-initialised arm can raise")
+            continue
+        for n, node, who in rnodes:
+            have = {a for d in dom.get(n, set()) if d in stores for a in stores[d].split(",")}
+            missing = sorted(required - have)
+            rep.check("R19.7", f"{cls}.__init__:{ast.unparse(node)[:40]}", not missing,
+                      f"`{ast.unparse(node)[:60]}` ({who}) can raise while the instance - already interned by {cls}.__new__ - has no "
+                      f"{', '.join(missing)} yet: the half-built object stays in {cls}._known and later readers of that table fail",
+                      fi.where(node))
+            early = [i for i in init_nodes if n in cfg.reachable_after(i) and n != i]
+            rep.check("R19.8", f"{cls}.__init__:{ast.unparse(node)[:40]}", not early or handles.get(cls, False),
+                      f"`self._initialized = True` is set before `{ast.unparse(node)[:60]}` ({who}) can still raise, and the "
+                      "already-initialised arm ignores names: after a rejected definition the next valid declaration of that key "
+                      "silently keeps name None", fi.where(node))
 
 
 def run(rep: Report) -> None:
     prog = Program()
     resolver = Resolver(prog)
+    rep.rule("R19.7", "no half-built interned object: wherever an interning class's __init__ can raise, every attribute it sets has "
+             "already been assigned", floor=3)
+    rep.rule("R19.8", "_initialized is not set before a point of __init__ that can still raise, unless the initialised arm registers names", floor=3)
     rep.rule("R19.1", "validate before mutate: in every definition entry point, followed through its callees, no raise is "
              "reachable after a write to a name/symbol registry or to the names of an existing object", floor=8)
     rep.rule("R19.2", "guarded binding: every registry[k] = v is dominated by a raising test that k is unbound or bound to v", floor=4)
@@ -236,7 +304,9 @@ def run(rep: Report) -> None:
     guarded_bindings(rep, prog, resolver)
     # E5 tables
     ev = evaluate()
-    prefix_late = late_naming(rep, prog, resolver, ev)
+    handles = late_naming(rep, prog, resolver, ev)
+    prefix_late = handles.get("Prefix", False)
+    interned_construction(rep, prog, resolver, summ, handles)
     entries = ["systems"] + (shipped_modules() if rep.tier == "thorough" else [])
     seen_keys: Set[str] = set()
     for entry in entries:
@@ -300,5 +370,6 @@ def run(rep: Report) -> None:
         rep.ok("R19.6", "package", note="no memoised function reads a name/symbol registry")
     rep.analysed.update({"entry_points": ENTRIES, "declared_prefixes": len(ev.prefix_decls), "unit_name_symbol_declarations": len(ev.name_decls),
                          "entry_modules_explored": entries})
-    rep.not_decided.append("the intern table _known after a failing define (an orphaned, unreachable base unit): inventory only")
+    rep.not_decided.append("the intern table _known after a failing definition keeps an anonymous, fully built instance (R19.7); "
+                           "that it is otherwise unchanged is inventory only")
     rep.trust("E5 declaration model; mypy call resolution")
